@@ -108,10 +108,12 @@ Definition check_csart_trace (W L : mat) (b : vec) (maxit : Z) (relax beta tol :
 (* ---- certificates for the least-squares solvers (Model/C11_Kkt.v) ---- *)
 Definition rel_kkt : Q := pow2 (-30).
 
-(* rounding-error scales: of a component of the gradient C^T(Cx-d), and of the objective *)
+(* rounding-error scales: of the gradient C^T(Cx-d), and of the objective *)
 Definition row_mag (x : vec) (rd : vec * Q) : Q := Qred (dot (map Qabs (fst rd)) (map Qabs x) + Qabs (snd rd)).
+(* norm-wise (the solvers are backward stable in the norm-wise sense, not row by row):
+   (largest absolute column sum of C) x (largest row magnitude |C||x| + |d|) *)
 Definition grad_scale (C : mat) (d x : vec) : Q :=
-  maxabs (tmv (absm C) (map (row_mag x) (combine C d)) (length x)).
+  maxabs (tmv (absm C) (repeat 1 (length C)) (length x)) * maxabs (map (row_mag x) (combine C d)).
 Definition obj_scale (C : mat) (d x : vec) : Q :=
   let m := map (row_mag x) (combine C d) in dot m m.
 
@@ -163,8 +165,10 @@ Definition check_lstsq (n : nat) (W : mat) (b : vec) (alpha : Q) (L : option mat
      end.
 
 (* output of invert_svd: eps-normal equations of |Wx-b|^2 *)
+(* looser: the code multiplies by the explicit pseudo-inverse, which loses eps x cond(W) *)
+Definition rel_svd : Q := pow2 (-26).
 Definition check_svd (W : mat) (b : vec) (x : vec) : bool :=
-  eps_normal_eq W b x (rel_kkt * grad_scale W b x).
+  eps_normal_eq W b x (rel_svd * grad_scale W b x).
 
 Definition check_nnls_out (n : nat) (W : mat) (b : vec) (alpha : Q) (L : option mat) (x : vec) (rnorm : Q) : Z :=
   b2z (negb (Qeq_bool (vmax (stackd b n)) 0) && check_nnls n W b alpha L x rnorm).
